@@ -141,7 +141,11 @@ def run_case(case: dict) -> dict:
     try:
         p = build(case['expr'])
         results = []
-        if 'chain' in case:
+        bud = case.get('budget', 1)
+        if bud != 1:
+            for dt in case['queries']:
+                results.append([dt, query(p, dt, bud)])
+        elif 'chain' in case:
             dt, n = case['chain']
             for _ in range(n):
                 r = query(p, dt)
